@@ -412,6 +412,15 @@ func (r *zzRig) prefixInputs(kind int, value []byte, ownFirstBroadcast *specqbft
 		in = r.prefixInputs(3, value, ownFirstBroadcast)
 		return append(in, nil, zzLoop, nil, zzLoop)
 	}
+	if kind == 10 {
+		// round 2 reached through a completed round change: own round-change looped back plus two more (a quorum
+		// for the CURRENT round is held), then one round-change for round 3
+		oth := r.others()
+		return append(in, nil, zzLoop,
+			zzHonest(oth[0], r.msg(specqbft.RoundChangeMsgType, 2, [32]byte{}), nil),
+			zzHonest(oth[1], r.msg(specqbft.RoundChangeMsgType, 2, [32]byte{}), nil),
+			zzHonest(oth[0], r.msg(specqbft.RoundChangeMsgType, 3, [32]byte{}), nil))
+	}
 	root, _ := zzHashDataRoot(value)
 	leader := zzLeader(r.share, r.height, 1)
 	if leader != r.share.OperatorID {
@@ -538,7 +547,7 @@ func ZZHarnessDiff() {
 	if p := int(zzParam("PREFIX")); p > 0 {
 		kind = p - 1
 	} else {
-		kind = zzChoose("prefix", 10)
+		kind = zzChoose("prefix", 11)
 	}
 	var first *specqbft.SignedMessage
 	if len(a.net.msgs) > 0 {
@@ -1007,5 +1016,65 @@ func ZZHarnessRCProgress() {
 		zzReach("mixed-prepared-values")
 	}
 	zzAssert(worked >= 1, "some-delivery-order-lets-the-leader-propose-and-followers-prepare")
+	zzReach("end")
+}
+
+// ZZHarnessRCAfterRoundChange (C07): progress must not stop after the first completed round change. The operator
+// reached round 2 through a completed round change (it holds a quorum of round-change messages for its CURRENT
+// round, its own one looped back); the proposal of round 2 never arrives. Then the others announce round 3:
+//   - f+1 round-changes for round 3 pull the operator forward (round 3, own round-change for round 3 broadcast);
+//   - when the operator leads round 3, a quorum of round-changes for round 3 makes it propose.
+func ZZHarnessRCAfterRoundChange() {
+	n := int(zzParam("N"))
+	height := specqbft.Height(zzNondetRange("iheight", 0, uint64(n)))
+	value := []byte{9}
+	share0 := zzShareFor(n, zzCommitteeIDs[n][0])
+	own := zzCommitteeIDs[n][zzChoose("own", n)]
+	leads3 := zzLeader(share0, height, 3) == own
+	r := zzNewRig(n, own, height, value)
+	zzAssume(r.valOK)
+	zzAssume(r.inst.UponRoundTimeout(r.lg) == nil)
+	loop := func() {
+		m := r.net.msgs[len(r.net.msgs)-1]
+		if m != nil {
+			_, _, _, _ = r.inst.ProcessMsg(r.lg, zzCopyMsg(m))
+		}
+	}
+	loop()
+	oth := r.others()
+	q := int(r.share.Quorum)
+	for k := 0; k < q-1; k++ {
+		_, _, _, err := r.inst.ProcessMsg(r.lg, zzHonest(oth[k], r.msg(specqbft.RoundChangeMsgType, 2, [32]byte{}), nil))
+		zzAssert(err == nil, "honest-roundchange-for-the-current-round-accepted")
+	}
+	zzAssume(r.inst.State.Round == 2)
+	before := len(r.net.msgs)
+	f := (n - 1) / 3
+	for k := 0; k < len(oth); k++ {
+		_, _, _, err := r.inst.ProcessMsg(r.lg, zzHonest(oth[k], r.msg(specqbft.RoundChangeMsgType, 3, [32]byte{}), nil))
+		zzAssert(err == nil, "honest-roundchange-for-the-next-round-accepted")
+		if k+1 == f+1 {
+			zzReach("f+1")
+			zzAssert(r.inst.State.Round == 3, "f+1-roundchanges-pull-the-operator-forward-after-a-completed-round-change")
+			sent := false
+			for _, b := range r.net.msgs[before:] {
+				if b != nil && b.Message.MsgType == specqbft.RoundChangeMsgType && b.Message.Round == 3 {
+					sent = true
+				}
+			}
+			zzAssert(sent, "pulled-forward-operator-announces-the-new-round")
+			loop()
+		}
+	}
+	if leads3 {
+		zzReach("leader-of-round-3")
+		proposed := false
+		for _, b := range r.net.msgs[before:] {
+			if b != nil && b.Message.MsgType == specqbft.ProposalMsgType && b.Message.Round == 3 {
+				proposed = true
+			}
+		}
+		zzAssert(proposed, "leader-proposes-on-a-roundchange-quorum-after-a-completed-round-change")
+	}
 	zzReach("end")
 }
